@@ -582,3 +582,11 @@ def r6(cx):
             cx.violation(fn, 'signed-job-number', 'the text after `%` is handed to str::parse::<NonZeroUsize>, which accepts a leading `+`: `%+1` '
                          'designates job 1 (`jobs %+1`, `kill %+1`, `fg %+1`) although the documented forms are `%n`, `%+` alone and `%name` '
                          '(a name prefix `+1`)', loc=body.loc(s))
+
+
+from rules.C13 import r7 as _c13_sparse_job_numbers
+from engine import Rule
+RS.rules.append(Rule('C12.R7', 'K-TAINT', 'job numbers are sparse: the number of jobs is never used as a bound, an index or a validity test for '
+                     'job numbers (`%n` is resolved by looking the number up, not by comparing it with the count) - shared with C13.R7',
+                     _c13_sparse_job_numbers))
+RS.explanation += ' The number of jobs is never used as a bound or validity test for job numbers (R7 = C13.R7).'
